@@ -2084,23 +2084,25 @@ func (c *BytecodeCompiler) compileBreakExpressionNode(node *ast.BreakExpressionN
 }
 
 func (c *BytecodeCompiler) leaveScopeOnContinue(line int, label string) {
+	// the scope of the loop itself gets closed as well,
+	// the next iteration has its own loop variable
 	if label == "" {
 		for i := range c.scopes {
 			scope := c.scopes[len(c.scopes)-i-1]
+			c.closeUpvaluesInScope(line, scope)
 			if scope.typ == loopBytecodeScopeType {
 				break
 			}
-			c.closeUpvaluesInScope(line, scope)
 		}
 		return
 	}
 
 	for i := range c.scopes {
 		scope := c.scopes[len(c.scopes)-i-1]
+		c.closeUpvaluesInScope(line, scope)
 		if scope.label == label {
 			break
 		}
-		c.closeUpvaluesInScope(line, scope)
 	}
 }
 
